@@ -42,7 +42,7 @@ CLAIM = dict(
     technique='Coq proof over a hand-written parser model with regenerated operator tables + extracted-model correspondence + extracted monitor',
     design_ref='8 C08')
 
-MAIN_ALLOW = ('nested_shortif', 'break_mid', 'qmark')
+MAIN_ALLOW = ('nested_shortif', 'break_mid', 'qmark', 'paren_suffix')
 SPECIAL = ['short-if-do-body']
 _TRIVIA = ('TokSpace', 'TokNewline', 'TokComment')
 _KIND = {'TokString': 'T', 'TokNumber': 'U', 'TokName': 'A', 'TokLabel': 'L', 'TokKeyword': 'K', 'TokSymbol': 'Y'}
